@@ -8,7 +8,8 @@
 (*    of the member: alternative spellings of the value as a parameter),   *)
 (*    marks1, marks2 (distinctive spellings that must NOT occur in the     *)
 (*    SQL text)]                                                           *)
-(* Verdict: ok | sql-differs | escape-clause-only | value-in-text |        *)
+(* Verdict: ok | sql-differs | sql-text-differs | escape-clause-only |     *)
+(*          value-in-text |                                                *)
 (*          value-not-bound                                                *)
 (***************************************************************************)
 EXTENDS SqlLex, Json, IOUtils, TLC
@@ -35,6 +36,8 @@ VerdictOf(c) ==
   \* (a clause whose character depends on the value is a value-dependent piece of SQL text like any other)
   IF t1 # t2 THEN (IF StripEsc(t1) = StripEsc(t2) /\ (\A a, b \in EscChars(t1) \cup EscChars(t2) : a = b)
                    THEN "escape-clause-only" ELSE "sql-differs")
+  \* the same tokens but not the same text: the difference sits in a comment or in the layout
+  ELSE IF c.sql1 # c.sql2 THEN "sql-text-differs"
   ELSE IF \E i \in 1..Len(c.marks1) : InText(t1, c.marks1[i]) THEN "value-in-text"
   ELSE IF \E i \in 1..Len(c.marks2) : InText(t2, c.marks2[i]) THEN "value-in-text"
   ELSE IF \E i \in 1..Len(c.needles1) : ~Bound(c.params1, c.needles1[i]) THEN "value-not-bound"
